@@ -828,10 +828,12 @@ func (h *harness) compareBytes(v *view, fx facts, ref []byte, what string) bool 
 	h.res.Count("pages_compared", npages)
 	// sub-page ranges (SQLite reads the first 100 bytes and 16 bytes at offset 24)
 	if nerr == 0 && nbad == 0 && npages > 0 {
+		// own PRNG: the main stream must not depend on comparison outcomes
+		sub := rand.New(rand.NewSource(vf.SubSeed(h.s.Seed, "sub", len(h.toks))))
 		for i := 0; i < 3; i++ {
-			pg := 1 + h.rng.Intn(npages)
-			off := h.rng.Intn(ps)
-			ln := 1 + h.rng.Intn(ps-off)
+			pg := 1 + sub.Intn(npages)
+			off := sub.Intn(ps)
+			ln := 1 + sub.Intn(ps-off)
 			if i == 0 {
 				pg, off, ln = 1, 24, 16
 			}
@@ -1059,6 +1061,7 @@ func (h *harness) timeTravel(v *view) {
 	default:
 		T, how = time.UnixMilli(h.e.Arch.Files[h.e.Arch.Max()].Hdr.Timestamp).UTC().Add(time.Hour), "one hour after the newest TXID"
 	}
+	pollDuring := h.rng.Intn(2) == 0 // drawn before any timing-dependent outcome
 	plan, perr := litestream.CalcRestorePlan(h.ctx, h.client, 0, T, h.logger)
 	opt := litestream.NewRestoreOptions()
 	opt.Timestamp = T
@@ -1096,7 +1099,7 @@ func (h *harness) timeTravel(v *view) {
 	what := fmt.Sprintf("Restore(Timestamp=%s) (TXID %d)", how, m)
 	ok := h.compareBytes(v, fx, want, what)
 	h.e.Logf("direct view set-target-time: pos=%d -> ok=%v (%s)", m, ok, fx.desc)
-	if ok && h.rng.Intn(2) == 0 {
+	if ok && pollDuring {
 		// a poll must not disturb the historical view
 		err := v.f.VerifPollOnce(h.ctx)
 		h.e.Logf("direct view VerifPollOnce during time travel err=%v pos=%d", err, v.f.Pos().TXID)
